@@ -12,12 +12,14 @@ import (
 func init() { registry["C13"] = checkC13 }
 
 func checkC13(c *Ctx, r *Report) {
-	r.Explain = "Decides structural necessary conditions of 'a pulling client's copy matches the user's current access': (R1) a revocation entry is sent only for a document the user can no longer see (UserHasDocAccess false edge) and, when the entry is newer than the client's position, only if the document was in the channel while the user had it (wasDocInChannelPriorToRevocation true edge); every failure of those checks ends the feed with an error entry rather than skipping silently; (R2) revocation feeds are built exactly for the channels RevokedCollectionChannels reports, only when revocations were requested for a user and not in active-only mode, and that computation looks up lost roles through the accessor that still returns deleted roles; (R3) the deleted / revoked / removed indicators reach the replication client one-to-one and revocation entries are marked revoked; (R4) paging of a revocation feed counts only entries actually sent, and resumes after the last entry examined; (R5) grant history (channel and role history on principals) is written only by the rebuild functions. 'A revoked document can no longer be fetched' is C02.; (R6) every grant-history scan of RevokedCollectionChannels applies both disjuncts of the function's own resume test. Not decided: completeness of revocations and back-fill over arbitrary grant histories, triggered-by resumption arithmetic, interval bookkeeping."
+	r.Explain = "Decides structural necessary conditions of 'a pulling client's copy matches the user's current access': (R1) a revocation entry is sent only for a document the user can no longer see (UserHasDocAccess false edge) and, when the entry is newer than the client's position, only if the document was in the channel while the user had it (wasDocInChannelPriorToRevocation true edge); every failure of those checks ends the feed with an error entry rather than skipping silently; (R2) revocation feeds are built exactly for the channels RevokedCollectionChannels reports, only when revocations were requested for a user and not in active-only mode, and that computation looks up lost roles through the accessor that still returns deleted roles; (R3) the deleted / revoked / removed indicators reach the replication client one-to-one and revocation entries are marked revoked; (R4) paging of a revocation feed counts only entries actually sent, and resumes after the last entry examined; (R5) grant history (channel and role history on principals) is written only by the rebuild functions. (R7, shared with C02-R5) a long-lived replication connection that reloads its user also re-subscribes to the user's current roles, so that a role granted while the connection is open is watched and its later loss of a channel produces revocations. 'A revoked document can no longer be fetched' is C02.; (R6) every grant-history scan of RevokedCollectionChannels applies both disjuncts of the function's own resume test. Not decided: completeness of revocations and back-fill over arbitrary grant histories, triggered-by resumption arithmetic, interval bookkeeping."
 	c13R1R4(c, r)
 	c13R2(c, r)
 	c13R3(c, r)
 	c13R5(c, r)
 	c13R6(c, r)
+	r.Rule("C13-R7", "E2 pathrules (shared with C02-R5)", "a replication connection that reloads its user refreshes the keys it watches (the user's current roles) on every success path, so a later change of a newly granted role is noticed and its revocations are computed", 1)
+	c02RefreshKeysFor(c, r, "C13-R7")
 }
 
 func c13R1R4(c *Ctx, r *Report) {
